@@ -11,11 +11,14 @@ import (
 
 	"github.com/apernet/quic-go/monotime"
 
-	"github.com/apernet/hysteria/core/v2/internal/congestion/common"
 	"verif.local/engine/enum"
 	"verif.local/engine/evidence"
+	"verif.local/engine/vpriv"
 )
 
+// c12Snap: the simulator's own state (hand-copied: it is the harness's struct) and a deep copy of
+// the sender taken by reflection (vpriv.Clone/Restore: whatever fields the sender, its sampler, its
+// filters and its pacer have — no field list to keep in step with the code under test).
 type c12Snap struct {
 	sim     c12Sim
 	flight  []c12Pkt
@@ -23,17 +26,7 @@ type c12Snap struct {
 	gaps    []c12Gap
 	trans   []byte
 	rtt     c12RTT
-	b       bbrSender
-	pacer   common.Pacer
-	samp    bandwidthSampler
-	csm     packetNumberIndexedQueue[connectionStateOnSentPacket]
-	csmRing []entryWrapper[connectionStateOnSentPacket]
-	a0Ring  []ackPoint
-	mah     maxAckHeightTracker
-	mahF    WindowedFilter[extraAckedEvent, roundTripCount]
-	mahE    []entry[extraAckedEvent, roundTripCount]
-	bwF     WindowedFilter[Bandwidth, roundTripCount]
-	bwE     []entry[Bandwidth, roundTripCount]
+	b       *bbrSender
 	drawCnt int64
 }
 
@@ -44,18 +37,7 @@ func c12Save(s *c12Sim, sn *c12Snap) {
 	sn.gaps = append(sn.gaps[:0], s.gaps...)
 	sn.trans = append(sn.trans[:0], s.trans...)
 	sn.rtt = *s.rtt
-	b := s.b
-	sn.b = *b
-	sn.pacer = *b.pacer
-	sn.samp = *b.sampler
-	sn.csm = *b.sampler.connectionStateMap
-	sn.csmRing = append(sn.csmRing[:0], b.sampler.connectionStateMap.entries.ring...)
-	sn.a0Ring = append(sn.a0Ring[:0], b.sampler.a0Candidates.ring...)
-	sn.mah = *b.sampler.maxAckHeightTracker
-	sn.mahF = *b.sampler.maxAckHeightTracker.maxAckHeightFilter
-	sn.mahE = append(sn.mahE[:0], sn.mahF.estimates...)
-	sn.bwF = *b.maxBandwidth
-	sn.bwE = append(sn.bwE[:0], sn.bwF.estimates...)
+	sn.b = vpriv.Clone(s.b)
 	sn.drawCnt = c12DrawCnt
 }
 
@@ -71,44 +53,18 @@ func c12Restore(s *c12Sim, sn *c12Snap) {
 	s.trans = append(trans, sn.trans...)
 	s.ackedInfo, s.lostInfo, s.keep = acked, lost, keep
 	*rtt = sn.rtt
-
-	pacer, samp, bwf := b.pacer, b.sampler, b.maxBandwidth
-	*b = sn.b
-	b.pacer, b.sampler, b.maxBandwidth = pacer, samp, bwf
-	*pacer = sn.pacer
-
-	csm, mah := samp.connectionStateMap, samp.maxAckHeightTracker
-	csmRing, a0Ring := csm.entries.ring, samp.a0Candidates.ring
-	*samp = sn.samp
-	samp.connectionStateMap, samp.maxAckHeightTracker = csm, mah
-	*csm = sn.csm
-	csm.entries.ring = append(csmRing[:0], sn.csmRing...)
-	samp.a0Candidates.ring = append(a0Ring[:0], sn.a0Ring...)
-
-	mf := mah.maxAckHeightFilter
-	*mah = sn.mah
-	mah.maxAckHeightFilter = mf
-	est := mf.estimates
-	*mf = sn.mahF
-	mf.estimates = append(est[:0], sn.mahE...)
-	est2 := bwf.estimates
-	*bwf = sn.bwF
-	bwf.estimates = append(est2[:0], sn.bwE...)
+	vpriv.Restore(b, sn.b) // in place: the pacer's bandwidth callback and the simulator keep pointing at b
 	c12DrawCnt = sn.drawCnt
 }
 
 // fingerprint of everything the future of a trace depends on (compared between the prefix-sharing
-// walk and a from-scratch execution of the same sequence).
+// walk and a from-scratch execution of the same sequence): the simulator's counters plus the
+// complete private state of the sender, rendered by reflection.
 func (s *c12Sim) fingerprint() string {
 	b := s.b
-	q := b.sampler.connectionStateMap
 	now := monotime.Time(s.now)
 	return fmt.Sprint(s.now, s.events, s.sentPkts, s.inflight, s.nextPN, len(s.flight)-s.fh, len(s.rx)-s.rh, s.lossTime, s.lastDep, s.qSize, s.ccSize, s.ackedBytes, s.lastElicit, s.ptoCount, s.mtuPending, s.holdUntil, s.rxGap, s.largestAcked,
-		*s.rtt, b.mode, b.recoveryState, b.congestionWindow, b.recoveryWindow, b.pacingRate, b.pacingGain, b.congestionWindowGain, b.minRtt, b.minRttTimestamp, b.roundTripCount, b.cycleCurrentOffset, b.lastCycleStart, b.isAtFullBandwidth,
-		b.bytesInFlight, b.maxDatagramSize, b.minCongestionWindow, b.maxCongestionWindow, b.initialCongestionWindow, b.exitProbeRttAt, b.endRecoveryAt, b.currentRoundTripEnd, b.lastSentPacket,
-		b.bandwidthEstimate(), b.maxBandwidth.estimates, b.sampler.totalBytesSent, b.sampler.totalBytesAcked, b.sampler.totalBytesLost, b.sampler.isAppLimited, b.sampler.endOfAppLimitedPhase, q.EntrySlotsUsed(), q.NumberOfPresentEntries(), q.FirstPacket(),
-		b.sampler.MaxAckHeight(), b.sampler.maxAckHeightTracker.maxAckHeightFilter.estimates, b.sampler.maxAckHeightTracker.aggregationEpochBytes, b.sampler.a0Candidates.Len(), b.sampler.recentAckPoints,
-		b.pacer.Budget(now), b.pacer.TimeUntilSend(), s.modeSeen, string(s.trans), s.clause)
+		*s.rtt, vpriv.Fingerprint(b), b.pacer.Budget(now), b.pacer.TimeUntilSend(), s.modeSeen, string(s.trans), s.clause)
 }
 
 type c12Walk struct {
